@@ -16,6 +16,7 @@ func init() {
 	vHarnesses["H_C15_json_bytes"] = H_C15_json_bytes
 	vHarnesses["H_C15_json_exact"] = H_C15_json_exact
 	vHarnesses["H_C15_xml_opts"] = H_C15_xml_opts
+	vHarnesses["H_C15_seq_cast"] = H_C15_seq_cast
 	vHarnesses["H_C15_encode_opts"] = H_C15_encode_opts
 }
 
@@ -407,4 +408,57 @@ func H_C15_xml_opts() {
 			vAssert(m == nil, "xml opts: an error comes with no partial Map")
 		}
 	}
+}
+
+// every MapSeq / Map produced with the cast flag can be passed to the encoders: comments,
+// instructions, directives, attributes and text that look like numbers or booleans
+func H_C15_seq_cast() {
+	vResetDecOpts()
+	t := []string{"1", "true", "x", "2.5", ""}[vChoose(5)]
+	var piece string
+	switch vChoose(6) {
+	case 0:
+		piece = "<!--" + t + "-->"
+	case 1:
+		piece = "<?p " + t + "?>"
+	case 2:
+		piece = "<!D " + t + ">"
+	case 3:
+		piece = "<b n=\"" + t + "\">" + t + "</b>"
+	case 4:
+		piece = t + "<b/>"
+	default:
+		piece = "<b>" + t + "</b><b>" + t + "</b>"
+	}
+	doc := []byte("<a p:q=\"" + t + "\">" + piece + "</a>")
+	CastValuesToInt(vChoose(2) == 1)
+	seq := vChoose(2) == 1
+	var mixedSeq bool
+	panicked := vCatch(func() {
+		if seq {
+			ms, err := NewMapXmlSeq(doc, true)
+			if err == nil {
+				if _, isStr := ms["a"].(map[string]interface{})["#text"]; isStr {
+					mixedSeq = true
+				}
+				_, _ = ms.Xml()
+				_, _ = ms.XmlIndent("", " ")
+				_, _ = Map(ms).Json()
+			}
+		} else {
+			m, err := NewMapXml(doc, true)
+			if err == nil {
+				_, _ = m.Xml()
+				_, _ = m.XmlIndent("", " ")
+				_, _ = m.Json()
+			}
+		}
+	})
+	CastValuesToInt(false)
+	if panicked && mixedSeq && vKnown("C04-text-beside-children") {
+		vKnownHit("C04-text-beside-children")
+		return
+	}
+	vAssert(!panicked, "cast encode: every Map or MapSeq decoded with the cast flag can be passed to the encoders without a panic")
+	vCover("castenc")
 }
